@@ -20,3 +20,10 @@ claim("C10", "MIR dependence slice with induction-value roots + async-aware domi
       "tombstone (data-dependence slice whose roots are the scan loops' Iterator::next values), that append writes at slot_addr(tail), advances "
       "the tail per tombstone, flushes the old page (error propagated) before loading another and flushes before returning with the result "
       "returned, and that Tombstone::write/read agree field by field. Log wrap-around and crash atomicity are not decided.", "DESIGN.md §4 C10")
+claim("C12", "MIR control-dependence rules over `x == Variant` atoms (match and PartialEq forms) + must-pass rules",
+      "Decides that every Store::enqueue call in the hybrid layer is reachable only across an edge establishing location != InMem for the "
+      "entry written (sibling agreement of Pipe::send / Pipe::flush / insert_with_properties / post-fetch), that insert-time and post-fetch "
+      "writes are control-dependent on policy == WriteOnInsertion and the eviction pipe on (real store, WriteOnEviction), that the post-fetch "
+      "write is control-dependent on source() == Outer, that Age::Young returns before sequence allocation and submit, and that filter "
+      "rejection / OnDisk advice produce a phantom whose last drop pipes it and skips release. Counting device writes is not decided.",
+      "DESIGN.md §4 C12")
